@@ -427,6 +427,17 @@ impl<'tcx> Cx<'tcx> {
                     }
                 }
             }
+            hir::PatKind::Slice(before, mid, after) => {
+                o.push(("k", s("slice")));
+                let b: Vec<J> = before.iter().map(|x| self.pat(tr, owner, x)).collect();
+                o.push(("before", J::A(b)));
+                if let Some(m) = mid {
+                    let j = self.pat(tr, owner, m);
+                    o.push(("mid", j));
+                }
+                let a: Vec<J> = after.iter().map(|x| self.pat(tr, owner, x)).collect();
+                o.push(("after", J::A(a)));
+            }
             other => {
                 let k = format!("{:?}", std::mem::discriminant(other));
                 self.unsupported.push(format!("pat {}", k));
